@@ -343,6 +343,10 @@ fn unary_truth(op: CmpOperator, kind: u8) -> Option<bool> {
 }
 
 fn unary_one(op: CmpOperator, kind: u8, variable_head: bool) {
+    unary_one_r(op, kind, variable_head, true)
+}
+
+fn unary_one_r(op: CmpOperator, kind: u8, variable_head: bool, records: bool) {
     let not: bool = kani::any();
     let inverse: bool = kani::any();
     let key = if variable_head { "%v" } else { "k" };
@@ -359,8 +363,10 @@ fn unary_one(op: CmpOperator, kind: u8, variable_head: bool) {
             kani::assert(v.len() == 1, "one result per selected value");
             let pass = (t != not) != inverse; // C03: prefix not == operator-level not
             kani::assert(v[0].1 == if pass { Status::PASS } else { Status::FAIL }, "truth(op) XOR not XOR prefix-not");
-            kani::assert(ctx.inner.n == 1 && ctx.inner.log[0].kind == 3 && ctx.inner.log[0].status == if pass { 0 } else { 1 },
-                "one ClauseValueCheck record per value, Success iff the value passes");
+            if records {
+                kani::assert(ctx.inner.n == 1 && ctx.inner.log[0].kind == 3 && ctx.inner.log[0].status == if pass { 0 } else { 1 },
+                    "one ClauseValueCheck record per value, Success iff the value passes");
+            }
         }
         (Err(_), None) => {}
         (Err(_), Some(_)) => kani::assert(false, "an evaluation error only where the semantics is undefined"),
@@ -414,6 +420,22 @@ where
     Box::new(move |_value: &QueryResult| Ok(true))
 }
 
+/// pass-through replacement of the per-value recorder: the operation (truth table x not x prefix-not wiring of
+/// unary_operation) is kept, only the writing of the ClauseValueCheck record is dropped
+#[allow(clippy::type_complexity)]
+fn record_unary_passthrough<'eval, 'value, 'loc: 'value, O>(
+    operation: O,
+    _cmp: (CmpOperator, bool),
+    _context: String,
+    _custom_message: Option<String>,
+    _eval_context: &'eval mut dyn EvalContext<'value, 'loc>,
+) -> Box<dyn FnMut(&QueryResult) -> Result<bool> + 'eval>
+where
+    O: Fn(&QueryResult) -> Result<bool> + 'eval,
+{
+    Box::new(move |value: &QueryResult| operation(value))
+}
+
 macro_rules! unary_special {
     ($name:ident, $kind:expr) => {
         #[cfg_attr(kani, kani::proof)]
@@ -442,6 +464,35 @@ fn k_unsp_empty_nosel() {
     lib_only!();
     unary_empty_selection(CmpOperator::Empty, true);
 }
+
+macro_rules! unary_wiring {
+    ($name:ident, $op:expr, $kind:expr) => {
+        #[cfg_attr(kani, kani::proof)]
+        #[cfg_attr(kani, kani::unwind(3))]
+        #[cfg_attr(kani, kani::stub(alloc::fmt::format, fmt_stub))]
+        #[cfg_attr(kani, kani::stub(fancy_regex::Regex::new, regex_new_stub))]
+        #[cfg_attr(kani, kani::stub(record_unary_clause, record_unary_passthrough))]
+        #[cfg_attr(verif_replay, test)]
+        fn $name() {
+            lib_only!();
+            unary_one_r($op, $kind, false, false);
+        }
+    };
+}
+unary_wiring!(k_unw_exists_int, CmpOperator::Exists, 0u8);
+unary_wiring!(k_unw_exists_unres, CmpOperator::Exists, 8u8);
+unary_wiring!(k_unw_empty_str0, CmpOperator::Empty, 1u8);
+unary_wiring!(k_unw_empty_str1, CmpOperator::Empty, 2u8);
+unary_wiring!(k_unw_empty_int_err, CmpOperator::Empty, 0u8);
+unary_wiring!(k_unw_empty_unres, CmpOperator::Empty, 8u8);
+unary_wiring!(k_unw_isstring_str, CmpOperator::IsString, 2u8);
+unary_wiring!(k_unw_isstring_int, CmpOperator::IsString, 0u8);
+unary_wiring!(k_unw_islist_list, CmpOperator::IsList, 4u8);
+unary_wiring!(k_unw_isbool_bool, CmpOperator::IsBool, 6u8);
+unary_wiring!(k_unw_isint_int, CmpOperator::IsInt, 0u8);
+unary_wiring!(k_unw_isfloat_float, CmpOperator::IsFloat, 7u8);
+unary_wiring!(k_unw_isnull_null, CmpOperator::IsNull, 5u8);
+unary_wiring!(k_unw_ismap_int, CmpOperator::IsMap, 0u8);
 
 /// one harness = ONE call of unary_operation on a single selected value; operator-not and prefix-not are symbolic
 macro_rules! unary_single {
